@@ -45,6 +45,14 @@ class RealInterp(Interp):
             raise Unsupported('cast %s of a real-valued term' % op)
         return Interp.cast(s, op, x, st, dt)
 
+    def fcmp_sym(s, pred, a, b):
+        # reals have no NaN: ordered and unordered predicates coincide
+        if a is UNDEF or b is UNDEF: raise Violation('comparison of an uninitialised value', 'uninit')
+        A, B = R(a), R(b); q = pred[1:] if pred[0] in 'ou' and pred not in ('ord', 'uno') else pred
+        if q == 'ord': return 1
+        if q == 'uno': return 0
+        return {'eq': A == B, 'ne': A != B, 'lt': A < B, 'le': A <= B, 'gt': A > B, 'ge': A >= B}[q]
+
     def sqrt(s, x):
         if isinstance(x, float):
             import math
@@ -177,13 +185,40 @@ def run_queries(ctx, Q, per_goal_timeout, jobs=12):
         try: ctx.build_ir('w_p2p.cpp', list(d), 'plain')
         except BuildError as e:
             ctx.violation('p2p:build', 'w_p2p.cpp does not compile: ' + e.stderr[-500:], None); return
-    with mp.get_context('fork').Pool(jobs) as pool:
-        for px in pool.imap_unordered(_worker, [(ctx, t, per_goal_timeout) for t in Q]):
-            ctx.functions |= px.functions; ctx.inconclusive += px.inconclusive; ctx.queries += px.queries
-            for sm in px.samples:
-                if len(ctx.samples) < 5: ctx.samples.append(sm)
-            for k, v in px.counters.items(): ctx.counters[k] += v
-            for key, what, rp in px.viol: ctx.violation(key, what, rp)
+    # one forked process per query with a hard wall-clock cap: nlsat does not always honour its timeout, and a query that does not end is
+    # reported inconclusive, never as success
+    cap = 300 if ctx.quick() else 1500
+    mpc = mp.get_context('fork')
+    def child(conn, t):
+        px = _worker((ctx, t, per_goal_timeout))
+        try: conn.send(px)
+        except Exception as ex: conn.send(None)
+        conn.close()
+    todo = list(Q); live = []
+    def merge(px):
+        ctx.functions |= px.functions; ctx.inconclusive += px.inconclusive; ctx.queries += px.queries
+        for sm in px.samples:
+            if len(ctx.samples) < 5: ctx.samples.append(sm)
+        for k, v in px.counters.items(): ctx.counters[k] += v
+        for key, what, rp in px.viol: ctx.violation(key, what, rp)
+    while todo or live:
+        while todo and len(live) < jobs:
+            t = todo.pop(0); a, b = mpc.Pipe(duplex=False)
+            pr = mpc.Process(target=child, args=(b, t)); pr.start(); b.close(); live.append((pr, a, t, time.time()))
+        time.sleep(0.05)
+        for ent in list(live):
+            pr, a, t, ts = ent
+            if a.poll():
+                try: px = a.recv()
+                except EOFError: px = None
+                pr.join(5); live.remove(ent)
+                if px is None: ctx.inconclusive.append('%s: worker ended without a result' % t[0])
+                else: merge(px)
+            elif not pr.is_alive():
+                live.remove(ent); ctx.inconclusive.append('%s: worker died (exit code %s)' % (t[0], pr.exitcode))
+            elif time.time() - ts > cap:
+                pr.kill(); pr.join(5); live.remove(ent)
+                ctx.inconclusive.append('%s: no verdict within the hard cap of %d s (solver did not return)' % (t[0], cap))
 
 
 def run_query(ctx, name, defines, routine, ns, nt, per_goal_timeout=120):
@@ -200,26 +235,51 @@ def run_query(ctx, name, defines, routine, ns, nt, per_goal_timeout=120):
     nin = 8 * (ns + nt)
     I = [z3.Real('in%d' % i) for i in range(nin)]
     exp, cons, table = spec(routine, ns, nt, I)
-    it.start_path([])
+    # the shipped routines have no data-dependent branch; if one appears (a comparison of real-valued terms feeding a branch) the paths are enumerated
+    # (bounded: 64) and the law must hold on each under its path condition
+    work = [[]]; npaths = 0; results = []; nproved = 0
+    while work:
+        prefix = work.pop(); npaths += 1
+        if npaths > 1 and time.time() - t0 > (150 if ctx.quick() else 900):
+            ctx.inconclusive.append('%s: data-dependent paths not exhausted within the time cap (%d explored)' % (name, npaths - 1)); rec['status'] = 'OPEN'; ctx.queries.append(rec); return
+        if npaths > 64:
+            ctx.inconclusive.append('%s: more than 64 data-dependent paths' % name); rec['status'] = 'UNSUPPORTED'; ctx.queries.append(rec); return
+        st = _one_path(ctx, name, defines, routine, ns, nt, per_goal_timeout, it, prefix, I, exp, cons, table, rec, results)
+        if st is None: return
+        nproved += st; work.extend(it.pending)
+    rec.update(status='HOLDS' if nproved == len(results) else 'OPEN', goals=len(results), proved=nproved, paths=npaths, sqrt_calls=it.nsqrt, sqrt_matched_to_spec=it.sqrt_matched,
+               ir_instructions=it.path_instr, wall_s=round(time.time() - t0, 1), results=results[:40], nontrivial=(ns + nt) > 0)
+    ctx.queries.append(rec)
+    if len(ctx.samples) < 5 and nproved:
+        ctx.samples.append(dict(query=name, goals=len(results), verdict='unsat for every output component (real arithmetic)', example_goal='%s %s: %s in %.2fs' % results[-1] if results else ''))
+
+
+def _one_path(ctx, name, defines, routine, ns, nt, per_goal_timeout, it, prefix, I, exp, cons, table, rec, results):
+    nin = 8 * (ns + nt)
+    it.start_path(prefix)
     it.inputs = []; it.outputs = {}; it.constraints = list(cons); it.sqrt_table = table; it.nsqrt = 0; it.sqrt_matched = 0
     try:
         it.call('h_p2p', [routine, ns, nt, 0, 0, 0])
     except Unsupported as ex:
-        ctx.inconclusive.append('%s: %s' % (name, str(ex)[:200])); rec['status'] = 'UNSUPPORTED'; ctx.queries.append(rec); return
+        ctx.inconclusive.append('%s: %s' % (name, str(ex)[:200])); rec['status'] = 'UNSUPPORTED'; ctx.queries.append(rec); return None
     except Violation as ex:
-        ctx.violation('%s:%s' % (name, ex.kind), '%s: %s' % (name, str(ex)[:300]), None); rec['status'] = 'VIOLATED'; ctx.queries.append(rec); return
+        ctx.violation('%s:%s' % (name, ex.kind), '%s: %s' % (name, str(ex)[:300]), None); rec['status'] = 'VIOLATED'; ctx.queries.append(rec); return None
     ctx.counters['paths'] += 1; ctx.counters['instr'] += it.path_instr
+    it.constraints = it.constraints + list(it.pc)
+    pc_roots = set()
+    for c in it.pc: pc_roots |= _root_syms(c)
     if len(it.inputs) != nin or len(it.outputs) != 4 * (ns + nt):
-        ctx.inconclusive.append('%s: harness produced %d inputs / %d outputs, expected %d / %d' % (name, len(it.inputs), len(it.outputs), nin, 4 * (ns + nt))); return
-    results = []; nproved = 0
+        ctx.inconclusive.append('%s: harness produced %d inputs / %d outputs, expected %d / %d' % (name, len(it.inputs), len(it.outputs), nin, 4 * (ns + nt))); return None
+    nproved = 0
     comp = ['force x', 'force y', 'force z', 'potential']
     for k in range(4 * (ns + nt)):
         who = ('source %d' % (k // 4)) if k < 4 * ns else ('target %d' % ((k - 4 * ns) // 4))
         # cone of influence: only the square-root symbols that occur in this component matter; constraints about other pairs are dropped
         # (sound for 'unsat': fewer assumptions); a 'sat' answer is re-solved under all constraints before it is used
         goal = it.outputs[k] != exp[k]
-        roots = _root_syms(goal)
+        roots = _root_syms(goal) | pc_roots
         cons_k = [c for c in it.constraints if _root_syms(c) <= roots]
+        if len(it.pc): per_goal_timeout = min(per_goal_timeout, 30)
         sol = z3.Solver(); sol.set('timeout', per_goal_timeout * 1000)
         sol.add(cons_k); sol.add(goal)
         ts = time.time(); r = sol.check()
@@ -254,15 +314,13 @@ def run_query(ctx, name, defines, routine, ns, nt, per_goal_timeout=120):
             key = '%s:law:%s_%s' % (name, who.split()[0], comp[k % 4].replace(' ', '_'))
             rp = ctx.replay_file(key, dict(engine='E3', defines=list(defines), routine=routine, ns=ns, nt=nt, inputs=vals, component='%s %s' % (who, comp[k % 4]), native=verdict, detail=info))
             what = '%s: %s of %s differs from the pairwise law for inputs %s | native double run vs extended-precision law: %s %s' % (name, comp[k % 4], who, [round(v, 4) for v in vals][:16], verdict, info[:200])
-            if verdict == 'fails': ctx.violation(key, what, rp)
+            if verdict == 'fails':
+                ctx.violation(key, what, rp)
+                if len(it.pc): rec['status'] = 'VIOLATED'; ctx.queries.append(rec); return None      # a data-dependent path already breaks the law: no need to enumerate the others
             else: ctx.inconclusive.append('%s: solver model does not reproduce natively (%s): %s %s' % (name, verdict, who, comp[k % 4]))
         else:
             ctx.inconclusive.append('%s: solver answered %s on %s of %s after %.0fs' % (name, r, comp[k % 4], who, dt))
-    rec.update(status='HOLDS' if nproved == len(results) else 'OPEN', goals=len(results), proved=nproved, sqrt_calls=it.nsqrt, sqrt_matched_to_spec=it.sqrt_matched,
-               ir_instructions=it.path_instr, wall_s=round(time.time() - t0, 1), results=results[:40], nontrivial=(ns + nt) > 0)
-    ctx.queries.append(rec)
-    if len(ctx.samples) < 5 and nproved:
-        ctx.samples.append(dict(query=name, goals=len(results), verdict='unsat for every output component (real arithmetic)', example_goal='%s %s: %s in %.2fs' % results[-1] if results else ''))
+    return nproved
 
 
 def reference(routine, ns, nt, vals):
